@@ -289,10 +289,12 @@ def k_mult32(base, chk):
     k.settle()
 
 
-def k_reduce(base, chk):
+def k_reduce(base, chk, bound=B):
+    """reduce on every limb vector up to `bound` (default: the closed invariant of C09; C10 uses the
+    documented bound limbs < 2^52, because encodings and predicates must be right for every representation)"""
     fname = base.prog.find("Element).reduce")
     k = LFK(base, chk, fname)
-    v, vl = k.elem("v")
+    v, vl = k.elem("v", bound)
     (p,) = k.run([v], 1)
     out = k.limbs(p, v)
     k.goal(p, "congr", "value preserved mod p", fval(out), fval(vl), P)
@@ -378,7 +380,9 @@ def reduce_replayer():
 
     def replay(models, seed):
         rng = random.Random(seed)
-        cands = [m["v"] for m in models if "v" in m] + ref.limb_candidates(rng, 96)
+        cands = [m["v"] for m in models if "v" in m] + ref.limb_candidates(rng, 96) + ref.limb_candidates(rng, 64, bound=2**52 - 1)
+        for k_ in range(0, 20):     # 2p .. 2p+19 in the loose layout used by Subtract's bias
+            cands.append([0xFFFFFFFFFFFDA + k_, 0xFFFFFFFFFFFFE, 0xFFFFFFFFFFFFE, 0xFFFFFFFFFFFFE, 0xFFFFFFFFFFFFE])
         # values around p and 2p in many limb forms
         for t in (P - 1, P, P + 1, 2 * P - 1, 2 * P, 2 * P + 1, 2**255 - 1, 2**255, 2**255 + 18, 2**255 + 19, P - 19, P + 18, P + 19):
             cands.append([(t >> (51 * i)) & (2**51 - 1) if i < 4 else t >> 204 for i in range(5)])
